@@ -18,8 +18,8 @@ matrix algorithm after Maranget) together with an independent value semantics of
 * `specialize`, `expandOrRow`, `unspecialize`, `split`, `applyConstructor`,
   `applyMissingConstructors`, `compute` — `Matrix::specialize`, `MatrixRow::expand_or_pats`,
   `Matrix::unspecialize`, `ConstructorSet::split`, `WitnessMatrix::*`,
-  `compute_exhaustiveness_and_usefulness`.  The recursion takes fuel; `measure` bounds it
-  (termination is a proof obligation, see `AbraProofs/Properties/C12.lean`).
+  `compute_exhaustiveness_and_usefulness`.  The recursion takes fuel; `fuelFor` always suffices
+  (`C12_terminates` in `AbraProofs/Properties/C12.lean`).
 * `check`              — `match_expr_exhaustive_check`: witnesses (first column) and the per-arm
                           `useful` flags.
 
@@ -515,30 +515,13 @@ def initRows : Nat → List DPat → List Row
   | _, [] => []
   | i, p :: ps => { pats := [p], parent := i } :: initRows (i + 1) ps
 
-/-! ## Termination measure: fuel that always suffices -/
+/-! ## Termination measure: fuel that always suffices
 
-mutual
-  /-- number of or-free expansions of a pattern -/
-  def nexp : DPat → Nat
-    | .mk .or fs _ => nexpSum fs
-    | .mk _ fs _ => nexpProd fs
-  def nexpSum : List DPat → Nat
-    | [] => 0
-    | p :: ps => nexp p + nexpSum ps
-  def nexpProd : List DPat → Nat
-    | [] => 1
-    | p :: ps => nexp p * nexpProd ps
-end
-
-mutual
-  /-- size of a pattern; wildcards count 0 (they are what specialisation multiplies) -/
-  def psize : DPat → Nat
-    | .mk (.wild _) _ _ => 0
-    | .mk _ fs _ => 1 + psizes fs
-  def psizes : List DPat → Nat
-    | [] => 0
-    | p :: ps => psize p + psizes ps
-end
+`phi = 2 * (A + B) + C` strictly decreases at every recursive call of `compute` (proved in
+`AbraProofs/Lemmas/PatMatrixTerm.lean`), so `fuelFor = phi + 1` is enough:
+`A` = over all rows and all or-free expansions of a row, the node weights (variant node:
+1 + nesting of its payload type; other constructor nodes: 1; wildcards: 0); `B` = product nesting of
+the column types; `C` = 1 if some row has an or-pattern at its head. -/
 
 mutual
   /-- nesting of product types (the only types a wildcard is expanded along) -/
@@ -551,11 +534,60 @@ mutual
     | t :: ts => tyDepth t + tyDepths ts
 end
 
-/-- the driver's fuel: generous, linear in pattern sizes and type nesting (see `C12_fuel_enough`
-    in the proofs for what is proved about it) -/
-def defaultFuel (_env : EnumEnv) (ty : Ty) (pats : List DPat) : Nat :=
-  let maxPayload := 1
-  2 * (psizes pats + 1) * (tyDepth ty + 1) + 2 * tyDepth ty + 2 * pats.length + 16 + maxPayload
+mutual
+  /-- number of or-free expansions -/
+  def nx : DPat → Nat
+    | .mk .or fs _ => nxSum fs
+    | .mk (.wild _) _ _ => 1
+    | .mk (.bool _) fs _ => nxProd fs
+    | .mk (.int _) fs _ => nxProd fs
+    | .mk (.float _) fs _ => nxProd fs
+    | .mk (.str _) fs _ => nxProd fs
+    | .mk .product fs _ => nxProd fs
+    | .mk (.variant _ _) fs _ => nxProd fs
+  def nxSum : List DPat → Nat
+    | [] => 0
+    | p :: ps => nx p + nxSum ps
+  def nxProd : List DPat → Nat
+    | [] => 1
+    | p :: ps => nx p * nxProd ps
+end
+
+/-- weight of a constructor node -/
+def nodeW (env : EnumEnv) : Ctor → Nat
+  | .variant e i => 1 + tyDepth (dataTy env e i)
+  | _ => 1
+
+mutual
+  /-- total node weight over all or-free expansions -/
+  def tw (env : EnumEnv) : DPat → Nat
+    | .mk .or fs _ => twSum env fs
+    | .mk (.wild _) _ _ => 0
+    | .mk (.bool b) fs _ => nodeW env (.bool b) * nxProd fs + twProd env fs
+    | .mk (.int b) fs _ => nodeW env (.int b) * nxProd fs + twProd env fs
+    | .mk (.float b) fs _ => nodeW env (.float b) * nxProd fs + twProd env fs
+    | .mk (.str b) fs _ => nodeW env (.str b) * nxProd fs + twProd env fs
+    | .mk .product fs _ => nodeW env .product * nxProd fs + twProd env fs
+    | .mk (.variant e i) fs _ => nodeW env (.variant e i) * nxProd fs + twProd env fs
+  def twSum (env : EnumEnv) : List DPat → Nat
+    | [] => 0
+    | p :: ps => tw env p + twSum env ps
+  def twProd (env : EnumEnv) : List DPat → Nat
+    | [] => 0
+    | p :: ps => tw env p * nxProd ps + nx p * twProd env ps
+end
+
+def rowsA (env : EnumEnv) : List Row → Nat
+  | [] => 0
+  | r :: rs => twProd env r.pats + rowsA env rs
+
+def orHeads (rows : List Row) : Nat := if rows.any (fun r => r.headCtor.isOr) then 1 else 0
+
+def phi (env : EnumEnv) (Ts : List Ty) (rows : List Row) : Nat :=
+  2 * (rowsA env rows + tyDepths Ts) + orHeads rows
+
+/-- the fuel the driver uses -/
+def fuelFor (env : EnumEnv) (ty : Ty) (pats : List DPat) : Nat := phi env [ty] (initRows 0 pats) + 1
 
 /-- `match_expr_exhaustive_check` on deconstructed patterns: (useful flags, witnesses) -/
 def checkD (env : EnumEnv) (fuel : Nat) (ty : Ty) (pats : List DPat) : Option (List Bool × List DPat) :=
